@@ -8,6 +8,9 @@ import time
 
 VERIF = os.path.dirname(os.path.dirname(os.path.abspath(__file__)))
 KNOWN_FILE = os.path.join(VERIF, "known_findings.json")
+# evidence/ and replays/ normally live in /verif; runs against scratch copies of the repository
+# (tools/mutant.py) redirect them so that committed evidence is never overwritten by such a run
+OUT = os.environ.get("VERIF_OUT") or VERIF
 
 HELD, VIOLATED, INCONCLUSIVE = 0, 1, 2
 
@@ -67,7 +70,7 @@ def merge(results):
 
 
 def write_replay(prop, tier, seed, violation, unit):
-    d = os.path.join(VERIF, "replays", prop)
+    d = os.path.join(OUT, "replays", prop)
     os.makedirs(d, exist_ok=True)
     body = {"property": prop, "tier": tier, "seed": seed, "unit": unit, "violation": violation}
     txt = json.dumps(body, indent=1, sort_keys=True, default=repr)
@@ -164,8 +167,8 @@ def finish(mod, units, results, tier, seed, t0, extra_cov=None, reach_spec=None)
         "wall_s": round(time.time() - t0, 2),
         "violations": len(real),
     }
-    os.makedirs(os.path.join(VERIF, "evidence"), exist_ok=True)
-    with open(os.path.join(VERIF, "evidence", f"{prop}.json"), "w") as f:
+    os.makedirs(os.path.join(OUT, "evidence"), exist_ok=True)
+    with open(os.path.join(OUT, "evidence", f"{prop}.json"), "w") as f:
         json.dump(ev, f, indent=1, sort_keys=False, default=repr)
         f.write("\n")
 
